@@ -42,11 +42,21 @@ def _sha(p):
     return h.hexdigest()
 
 
+JOURNAL = ['as shipped (rollback journal)', 'WAL'][int(P.get('wal', 0))]
+
+
 def _setup():
     shutil.rmtree(DBDIR, ignore_errors=True)
     os.makedirs(DBDIR)
     shutil.copy(os.path.join(SRC, 'ref-genomes.gdb'), GFILE)
     shutil.copy(os.path.join(SRC, 'ref-signatures.gs'), SFILE)
+    if int(P.get('wal', 0)):
+        # the same database as a file in write-ahead-log mode (a mode recorded in the file header), cleanly closed
+        import sqlite3
+        con = sqlite3.connect(GFILE)
+        con.execute('PRAGMA journal_mode=WAL')
+        con.commit()
+        con.close()
     return _sha(GFILE), _sha(SFILE)
 
 
@@ -199,7 +209,7 @@ def _history(opener, ops, pre=0):
         return False, 'after closing: ' + ('genome file' if now[0] != H0[0] else 'signature file') + ' changed on disk'
     if os.path.exists(OTHER):
         os.remove(OTHER)
-    left = sorted(os.listdir(DBDIR))
+    left = sorted(f for f in os.listdir(DBDIR) if not (int(P.get('wal', 0)) and f.endswith(('-wal', '-shm'))))     # SQLite's own WAL side files are not the database files
     if left != ['ref-genomes.gdb', 'ref-signatures.gs']:
         return False, f'extra files left in the database directory: {left}'
     return True, None
@@ -228,4 +238,4 @@ def _c18_history(opener: int, o0: int, o1: int, o2: int, o3: int) -> bool:
 
 
 def explain_c18_history(opener, o0, o1, o2, o3):
-    return {'before_opening': ['nothing', 'a writable session (readonly=False) on an unrelated file was used', 'a writable session (cls=Session) on an unrelated file was used'][PRE], 'opened_by': ['ReferenceDatabase.load_from_dir', 'CLIContext.get_database'][opener], 'history': [OPS[o] for o in (o0, o1, o2, o3)[:L]], 'why': _run(opener, o0, o1, o2, o3)[1]}
+    return {'genome file journal mode': JOURNAL, 'before_opening': ['nothing', 'a writable session (readonly=False) on an unrelated file was used', 'a writable session (cls=Session) on an unrelated file was used'][PRE], 'opened_by': ['ReferenceDatabase.load_from_dir', 'CLIContext.get_database'][opener], 'history': [OPS[o] for o in (o0, o1, o2, o3)[:L]], 'why': _run(opener, o0, o1, o2, o3)[1]}
